@@ -437,8 +437,12 @@ func passVerdict(c *core.Ctx, it *interp, g *cfgq.Graph, kept func(cfgq.Fact) bo
 						}
 						for i, l := range as.Lhs {
 							if objOf(info, l) == passObj {
-								v, isC := boolConst(info, orNilExpr(core.AssignedTo(as, i)))
-								return isC && v
+								rhs := orNilExpr(core.AssignedTo(as, i))
+								if v, isC := boolConst(info, rhs); isC {
+									return v
+								}
+								_, good := direct(rhs) // pass = kept > 0
+								return good
 							}
 						}
 						return false
